@@ -2,6 +2,7 @@ import WhVerif.Util.Proto
 import WhVerif.Spec.C01
 import WhVerif.Model.C01Gray
 import WhVerif.Model.C01Witness
+import WhVerif.Model.C01Input
 namespace WhVerif.Driver.C01
 open Lean WhVerif.Proto WhVerif.C01
 
@@ -47,28 +48,105 @@ def superReads (I : Inst) (β : List Bool) (τ : List Nat) : Json :=
     | none => Json.null
     | some l => ofList (fun p => ofNatList [p.1, p.2]) l) (List.range I.ncols)
 
+/-! ### raw (position-based) input: what `PedigreeDPTable` is really constructed from
+
+`{"positions": [p…] | null, "reads": [{"ind": i, "variants": [[pos, allele, weight]…]}…], "nind", "trios", "geno",
+"recomb"}` — reads in ReadSet order; `positions: null` = the `positions == nullptr` default. -/
+
+structure Raw where
+  positions : Option (List Nat)
+  reads : List RawRead
+  nind : Nat
+  trios : List (Nat × Nat × Nat)
+  geno : List (List (List (Option Nat)))
+  recomb : List Nat
+
+def parseRaw (j : Json) : Option Raw := do
+  let positions ← match getObj? j "positions" with
+    | none => some none
+    | some Json.null => some none
+    | some v => (natList? v).map some
+  let reads ← (← getList? j "reads").mapM (fun r => do
+    let ind ← getNat? r "ind"
+    let variants ← (← getList? r "variants").mapM (fun e => do
+      match ← natList? e with
+      | [p, a, w] => some (p, a, w)
+      | _ => none)
+    some ({ ind, variants } : RawRead))
+  let nind ← getNat? j "nind"
+  let trios ← (← getList? j "trios").mapM (fun e => do
+    match ← natList? e with
+    | [f, m, c] => some (f, m, c)
+    | _ => none)
+  let geno ← (← getList? j "geno").mapM (fun perInd => do
+    (← asArr? perInd).mapM (fun perCol => do (← asArr? perCol).mapM optNat?))
+  let recomb ← getNatList? j "recomb"
+  some { positions, reads, nind, trios, geno, recomb }
+
+def Raw.mk? (R : Raw) : Except Reject Inst :=
+  mkInstE (R.positions.getD (defaultPositions R.reads)) R.reads R.nind R.trios R.geno R.recomb
+
+def instJson (I : Inst) : Json :=
+  Json.mkObj [
+    ("ncols", ofNat I.ncols),
+    ("reads", ofList (fun (r : Read) => Json.mkObj [("ind", ofNat r.ind), ("first", ofNat r.first),
+        ("last", ofNat r.last), ("entries", ofList (fun e => ofNatList [e.1, e.2.1, e.2.2]) r.entries)]) I.reads),
+    ("nind", ofNat I.nind),
+    ("trios", ofList (fun t => ofNatList [t.1, t.2.1, t.2.2]) I.trios),
+    ("geno", ofList (ofList (ofList ofOptNat)) I.geno),
+    ("recomb", ofNatList I.recomb)]
+
+inductive Got where
+  | bad
+  | rejected (why : String)
+  | ok (I : Inst)
+
+/-- the instance of a request: `"inst"` (column form) or `"raw"` (position form, converted by `mkInst`) -/
+def getInst (j : Json) : Got :=
+  match getObj? j "inst" with
+  | some ji => match parseInst ji with
+    | some I => .ok I
+    | none => .bad
+  | none => match (getObj? j "raw").bind parseRaw with
+    | none => .bad
+    | some R => match R.mk? with
+      | .ok I => .ok I
+      | .error e => .rejected e.name
+
+def rejected (why : String) : Json := Json.mkObj [("rejected", Json.str why)]
+
 def handle (op : String) (j : Json) : Option Json :=
-  if op == "c01.solve" then
-    match (getObj? j "inst").bind parseInst with
+  if op == "c01.mkinst" then
+    match (getObj? j "raw").bind parseRaw with
     | none => some badInput
-    | some I =>
+    | some R => match R.mk? with
+      | .ok I => some (Json.mkObj [("inst", instJson I), ("why", Json.null)])
+      | .error e => some (Json.mkObj [("inst", Json.null), ("why", Json.str e.name)])
+  else if op == "c01.solve" then
+    match getInst j with
+    | .bad => some badInput
+    | .rejected w => some (rejected w)
+    | .ok I =>
       let w := match witness I with
         | none => Json.null
         | some (β, τ) => Json.mkObj [("beta", ofBoolList β), ("tau", ofNatList τ)]
       some (Json.mkObj [("cost", ofOptNat (dpCost I)), ("witness", w)])
   else if op == "c01.cost" then
-    match (getObj? j "inst").bind parseInst with
-    | none => some badInput
-    | some I => some (Json.mkObj [("cost", ofOptNat (dpCost I))])
+    match getInst j with
+    | .bad => some badInput
+    | .rejected w => some (rejected w)
+    | .ok I => some (Json.mkObj [("cost", ofOptNat (dpCost I))])
   else if op == "c01.eval" then
-    match (getObj? j "inst").bind parseInst, (getObj? j "beta").bind boolList?, getNatList? j "tau" with
-    | some I, some β, some τ =>
+    match getInst j, (getObj? j "beta").bind boolList?, getNatList? j "tau" with
+    | .ok I, some β, some τ =>
       some (Json.mkObj [("cost", ofOptNat (totalCost I β τ)), ("superreads", superReads I β τ)])
+    | .rejected w, _, _ => some (rejected w)
     | _, _, _ => some badInput
   else if op == "c01.brute" then
-    match (getObj? j "inst").bind parseInst with
-    | none => some badInput
-    | some I => some (Json.mkObj [("cost", ofOptNat (optCost I))])
+    match getInst j with
+    | .bad => some badInput
+    | .rejected w => some (rejected w)
+    | .ok I => some (Json.mkObj [("cost", ofOptNat (optCost I))])
   else if op == "c01.colcost" then
     match (getObj? j "inst").bind parseInst, getNat? j "c", (getObj? j "bits").bind boolList?, getNat? j "t" with
     | some I, some c, some bs, some t =>
